@@ -1,14 +1,493 @@
 """C13 - molecule consensus is the strict majority call and never reports a tie.
 
-K only: molecules are built from in-memory pysam reads (tools/impl_c13.py) and run through the real
-Molecule.get_consensus / Fragment.get_consensus / pick_best_base_call; the model (coq/Model/C13.v) gets
-the per-read (refpos, base, quality) triples that pysam reports for the very same reads."""
-import itertools, json, os
-import fw
+T: the comparisons, constants and argument routing of pick_best_base_call, get_consensus_dictionaries,
+read_to_consensus_dict, Fragment.get_consensus and Molecule.get_consensus are regenerated into coq/Gen/GenConsensus.v
+(regen_consensus below); coq/Model/C13x.v builds the executable model from them and coq/Proofs/C13x.v proves it equal to
+the hand-written model of coq/Model/C13.v, for which the C13 theorems are proved.
+K: molecules are built from in-memory pysam reads (tools/impl_c13.py) and run through the real
+Molecule.get_consensus / Fragment.get_consensus / pick_best_base_call; the model gets the per-read
+(refpos, base, quality) triples that pysam reports for the very same reads."""
+import ast, hashlib, itertools, json, os, re
+import fw, py2coq
+from py2coq import Untranslatable
 
 BASES = 'ACGT'
-ERR = {'ValueError': 1, 'IndexError': 2}
+ERR = {'ValueError': 1, 'IndexError': 2, 'NotImplementedError': 3}
 QUALS = [0, 2, 10, 20, 30, 30, 37]
+
+
+# ------------------------------------------------------------------------------------------ translator tie (T)
+# Regenerates coq/Gen/GenConsensus.v from the current source: the expressions the C13 proofs hinge on.  Every part is
+# located by its ROLE in the function (which statement guards what, which names are assigned where) and refused
+# (py2coq.Untranslatable -> fw falls back to coq/Gen.pinned + extra correspondence passes) when the shape is not the
+# one the model gives a meaning to.
+F_SEQ = 'singlecellmultiomics/utils/sequtils.py'
+F_FRAG = 'singlecellmultiomics/fragment/fragment.py'
+F_MOL = 'singlecellmultiomics/molecule/molecule.py'
+
+
+class CharTranslator(py2coq.ExprTranslator):
+    """py2coq expressions; a one-character string constant is its character code"""
+    def z(self, n):
+        if isinstance(n, ast.Constant) and isinstance(n.value, str) and len(n.value) == 1 \
+                and ast.unparse(n) not in self.env:
+            return str(ord(n.value))
+        return super().z(n)
+
+
+class _Gen:
+    def __init__(self, repo):
+        self.repo = repo
+        self.src, self.tree = {}, {}
+        for rel in (F_SEQ, F_FRAG, F_MOL):
+            p = os.path.join(repo, rel)
+            if not os.path.exists(p):
+                raise Untranslatable('%s not found' % rel)
+            self.src[rel] = open(p).read()
+            self.tree[rel] = ast.parse(self.src[rel])
+        self.chunks, self.meta = [], []
+        self.facts = {}
+
+    u = staticmethod(ast.unparse)
+
+    def fn(self, rel, qualname):
+        f = py2coq.find_function(self.tree[rel], qualname)
+        if not isinstance(f, ast.FunctionDef):
+            raise Untranslatable('%s is not a function' % qualname)
+        return f
+
+    def emit(self, rel, node, name, sig, body, note=''):
+        seg = ast.get_source_segment(self.src[rel], node) or self.u(node)
+        sha = hashlib.sha256(seg.encode()).hexdigest()
+        shown = ' '.join(seg.split())[:400].replace('(*', '( *').replace('*)', '* )')
+        self.chunks.append('(* source: %s line %d-%d sha256 %s %s\n   %s *)\nDefinition %s %s :=\n  %s.'
+                           % (rel, node.lineno, node.end_lineno, sha, note, shown, name, sig, body))
+        self.meta.append({'source': rel, 'lines': [node.lineno, node.end_lineno], 'sha256': sha, 'coq': name})
+
+    def expr(self, node, env, what, boolean=True, must_use=()):
+        """translation of an expression whose every name is covered by env (fail closed on any other name)"""
+        def free(n):
+            if ast.unparse(n) in env:
+                return set()
+            if isinstance(n, ast.Name):
+                return {n.id}
+            out = set()
+            for c in ast.iter_child_nodes(n):
+                out |= free(c)
+            return out
+        fr = free(node)
+        if fr:
+            raise Untranslatable('%s: `%s` reads %s, which the model gives no meaning to' % (what, self.u(node), sorted(fr)))
+        tr = CharTranslator(env=env)
+        out = tr.b(node) if boolean else tr.z(node)
+        for name in must_use:
+            if not re.search(r'(?<![A-Za-z0-9_\'])%s(?![A-Za-z0-9_\'])' % re.escape(name), out):
+                raise Untranslatable('%s: `%s` does not use %s (not the role the model expects)' % (what, self.u(node), name))
+        return out
+
+    @staticmethod
+    def nodoc(f):
+        b = list(f.body)
+        if b and isinstance(b[0], ast.Expr) and isinstance(b[0].value, ast.Constant) and isinstance(b[0].value.value, str):
+            b = b[1:]
+        return b
+
+    @staticmethod
+    def const(n, types):
+        return isinstance(n, ast.Constant) and type(n.value) in types
+
+    def plain_args(self, f, names, what, kwarg=False, vararg=False):
+        a = f.args
+        got = [x.arg for x in a.args]
+        if got != list(names) or a.kwonlyargs or a.posonlyargs or bool(a.kwarg) != kwarg or bool(a.vararg) != vararg:
+            raise Untranslatable('%s: signature %s%s%s is not the modelled one %s' % (
+                what, got, ' *' + a.vararg.arg if a.vararg else '', ' **' + a.kwarg.arg if a.kwarg else '', list(names)))
+
+    # ---- sequtils.pick_best_base_call
+    def pick_best(self):
+        f = self.fn(F_SEQ, 'pick_best_base_call')
+        self.plain_args(f, [], 'pick_best_base_call', vararg=True)
+        calls = f.args.vararg.arg
+        body = self.nodoc(f)
+        k = next((i for i, st in enumerate(body) if isinstance(st, ast.For)), None)
+        if k is None or len(body) != k + 3:
+            raise Untranslatable('pick_best_base_call: expected [initialisations, for call in calls, if <no call>: return, return]')
+        init = {}
+        for st in body[:k]:
+            if not (isinstance(st, ast.Assign) and len(st.targets) == 1):
+                raise Untranslatable('pick_best_base_call: statement before the loop is not an assignment: %s' % self.u(st)[:80])
+            t, v = st.targets[0], st.value
+            pairs = [(t, v)]
+            if isinstance(t, ast.Tuple):
+                if not (isinstance(v, ast.Tuple) and len(v.elts) == len(t.elts)):
+                    raise Untranslatable('pick_best_base_call: tuple initialisation outside subset')
+                pairs = list(zip(t.elts, v.elts))
+            for a, b in pairs:
+                if not isinstance(a, ast.Name) or a.id in init:
+                    raise Untranslatable('pick_best_base_call: initialisation outside subset: %s' % self.u(st)[:80])
+                init[a.id] = b
+        loop, nocall, final = body[k:]
+        if not (isinstance(loop.target, ast.Name) and self.u(loop.iter) == calls and not loop.orelse and len(loop.body) == 2):
+            raise Untranslatable('pick_best_base_call: loop is not `for call in %s:` with [skip None, compare]' % calls)
+        c = loop.target.id
+        skip, cmp_ = loop.body
+        if not (isinstance(skip, ast.If) and self.u(skip.test) == '%s is None' % c and [self.u(s) for s in skip.body] == ['continue']
+                and not skip.orelse):
+            raise Untranslatable('pick_best_base_call: first statement of the loop is not `if %s is None: continue`' % c)
+        if not (isinstance(cmp_, ast.If) and len(cmp_.orelse) == 1 and isinstance(cmp_.orelse[0], ast.If) and not cmp_.orelse[0].orelse):
+            raise Untranslatable('pick_best_base_call: comparison is not `if <better>: ... elif <tie>: ...`')
+        better, tie = cmp_, cmp_.orelse[0]
+        # the better branch: best_base = call[0], best_q = call[1], and what happens to the tie flag
+        roles, tie_in_better = {}, None
+        for st in better.body:
+            if not (isinstance(st, ast.Assign) and len(st.targets) == 1 and isinstance(st.targets[0], ast.Name)):
+                raise Untranslatable('pick_best_base_call: better-branch statement outside subset: %s' % self.u(st)[:80])
+            name, val = st.targets[0].id, self.u(st.value)
+            if val == '%s[0]' % c and 'base' not in roles:
+                roles['base'] = name
+            elif val == '%s[1]' % c and 'q' not in roles:
+                roles['q'] = name
+            elif self.const(st.value, (bool,)) and tie_in_better is None:
+                tie_in_better = (name, st.value.value)
+            else:
+                raise Untranslatable('pick_best_base_call: better-branch statement outside subset: %s' % self.u(st)[:80])
+        if set(roles) != {'base', 'q'}:
+            raise Untranslatable('pick_best_base_call: the better branch does not store %s[0] and %s[1]' % (c, c))
+        bb, bq = roles['base'], roles['q']
+        if not (len(tie.body) == 1 and isinstance(tie.body[0], ast.Assign) and len(tie.body[0].targets) == 1
+                and isinstance(tie.body[0].targets[0], ast.Name) and self.const(tie.body[0].value, (bool,))):
+            raise Untranslatable('pick_best_base_call: the elif branch is not a single `tie = <bool>`')
+        tv = tie.body[0].targets[0].id
+        if tv in (bb, bq) or (tie_in_better and tie_in_better[0] != tv):
+            raise Untranslatable('pick_best_base_call: tie flag / best call variables are mixed up')
+        if set(init) != {bb, bq, tv}:
+            raise Untranslatable('pick_best_base_call: initialised %s, loop state is %s' % (sorted(init), sorted([bb, bq, tv])))
+        if not self.const(init[bb], (type(None),)):
+            raise Untranslatable('pick_best_base_call: %s is not initialised to None' % bb)
+        if not (self.const(init[tv], (bool,))):
+            raise Untranslatable('pick_best_base_call: %s is not initialised to a boolean constant' % tv)
+        t = lambda x: 'true' if x else 'false'
+        self.emit(F_SEQ, init[bq], 'g_pb_init_q', ': Z', self.expr(init[bq], {}, 'initial best quality', boolean=False),
+                  note='(initial %s)' % bq)
+        self.emit(F_SEQ, init[tv], 'g_pb_init_tie', ': bool', t(init[tv].value), note='(initial %s)' % tv)
+        cenv = {'%s[1]' % c: 'q', bq: 'best_q'}
+        self.emit(F_SEQ, better.test, 'g_pb_better', '(q best_q : Z) : bool',
+                  self.expr(better.test, cenv, 'better test', must_use=('q', 'best_q')))
+        self.emit(F_SEQ, better, 'g_pb_better_tie', '(old : bool) : bool', t(tie_in_better[1]) if tie_in_better else 'old',
+                  note='(value of %s after the better branch)' % tv)
+        tenv = dict(cenv)
+        for a, b in (('%s[0]' % c, bb), (bb, '%s[0]' % c)):
+            tenv['%s != %s' % (a, b)] = '(negb same_base)'
+            tenv['%s == %s' % (a, b)] = 'same_base'
+        self.emit(F_SEQ, tie.test, 'g_pb_tie_test', '(q best_q : Z) (same_base : bool) : bool',
+                  self.expr(tie.test, tenv, 'tie test', must_use=('q', 'best_q', 'same_base')),
+                  note='(same_base: %s[0] == %s; a call never equals the initial None)' % (c, bb))
+        self.emit(F_SEQ, tie.body[0], 'g_pb_tie_set', '(old : bool) : bool', t(tie.body[0].value.value))
+        # after the loop
+        if not (isinstance(nocall, ast.If) and not nocall.orelse and len(nocall.body) == 1 and isinstance(nocall.body[0], ast.Return)):
+            raise Untranslatable('pick_best_base_call: statement after the loop is not `if <no call>: return <constant>`')
+        rv = nocall.body[0].value
+        if not (isinstance(rv, ast.Tuple) and len(rv.elts) == 2 and self.const(rv.elts[0], (str,)) and len(rv.elts[0].value) == 1
+                and self.const(rv.elts[1], (int,))):
+            raise Untranslatable('pick_best_base_call: the no-call result is not a (character, integer) constant')
+        nenv = {tv: 'tie', '%s is None' % bb: '(negb has_base)', '%s is not None' % bb: 'has_base', '%s == None' % bb: '(negb has_base)'}
+        self.emit(F_SEQ, nocall.test, 'g_pb_nocall', '(tie has_base : bool) : bool', self.expr(nocall.test, nenv, 'no-call test'),
+                  note='(has_base: %s is not None)' % bb)
+        self.emit(F_SEQ, rv.elts[0], 'g_pb_nocall_base', ': Z', str(ord(rv.elts[0].value)))
+        self.emit(F_SEQ, rv.elts[1], 'g_pb_nocall_q', ': Z', self.expr(rv.elts[1], {}, 'no-call quality', boolean=False))
+        if not (isinstance(final, ast.Return) and final.value is not None and self.u(final.value) in ('(%s, %s)' % (bb, bq),)):
+            raise Untranslatable('pick_best_base_call: the final statement is not `return %s, %s`' % (bb, bq))
+
+    # ---- sequtils.get_consensus_dictionaries / read_to_consensus_dict
+    GCD_ARGS = ['R1', 'R2', 'only_include_refbase', 'dove_safe', 'min_phred_score', 'skip_first_n_cycles_R1', 'skip_last_n_cycles_R1',
+                'skip_first_n_cycles_R2', 'skip_last_n_cycles_R2', 'dove_R2_distance', 'dove_R1_distance']
+    RTC_ARGS = ['read', 'start', 'end', 'only_include_refbase', 'skip_first_n_cycles', 'skip_last_n_cycles', 'min_phred_score']
+
+    def dictionaries(self):
+        f = self.fn(F_SEQ, 'get_consensus_dictionaries')
+        self.plain_args(f, self.GCD_ARGS, 'get_consensus_dictionaries')
+        dflt = dict(zip(self.GCD_ARGS[2:], f.args.defaults))
+        if len(f.args.defaults) != 9:
+            raise Untranslatable('get_consensus_dictionaries: expected defaults for every option')
+        for name, d in dflt.items():
+            want = {'dove_safe': 'False', 'dove_R2_distance': '0', 'dove_R1_distance': '0'}.get(name, 'None')
+            if self.u(d) != want:
+                raise Untranslatable('get_consensus_dictionaries: default of %s is %s, the model has %s' % (name, self.u(d), want))
+        body = [st for st in self.nodoc(f) if not isinstance(st, ast.Assert)]
+        if not (len(body) == 2 and isinstance(body[0], ast.If) and self.u(body[0].test) == 'dove_safe' and isinstance(body[1], ast.Return)):
+            raise Untranslatable('get_consensus_dictionaries: expected [if dove_safe: <window> else: <no window>, return <two dictionaries>]')
+        win, ret = body
+        if [self.u(s) for s in win.orelse] != ['start, end = (None, None)']:
+            raise Untranslatable('get_consensus_dictionaries: without dove_safe the window is not (None, None)')
+        wb = win.body
+        if not (len(wb) == 2 and isinstance(wb[0], ast.If) and not wb[0].orelse and self.u(wb[0].test) in
+                ('R1 is None or R2 is None', 'R2 is None or R1 is None') and len(wb[0].body) == 1
+                and self.raises(wb[0].body[0], 'ValueError')):
+            raise Untranslatable('get_consensus_dictionaries: dove_safe with a missing mate does not raise ValueError first')
+        ch = wb[1]
+        if not (isinstance(ch, ast.If) and len(ch.orelse) == 1 and isinstance(ch.orelse[0], ast.If) and len(ch.orelse[0].orelse) == 1
+                and self.raises(ch.orelse[0].orelse[0], 'ValueError')):
+            raise Untranslatable('get_consensus_dictionaries: orientation chain is not if/elif/else: raise ValueError')
+        oenv = {'R1.is_reverse': 'r1_rev', 'R2.is_reverse': 'r2_rev'}
+        wenv = {'R1.reference_start': 'r1_start', 'R1.reference_end': 'r1_end', 'R2.reference_start': 'r2_start',
+                'R2.reference_end': 'r2_end', 'dove_R1_distance': 'd1', 'dove_R2_distance': 'd2'}
+        for n, br in enumerate((ch, ch.orelse[0])):
+            if not (len(br.body) == 1 and isinstance(br.body[0], ast.Assign) and self.u(br.body[0].targets[0]) == '(start, end)'
+                    and isinstance(br.body[0].value, ast.Tuple) and len(br.body[0].value.elts) == 2):
+                raise Untranslatable('get_consensus_dictionaries: orientation branch %d does not assign (start, end)' % n)
+            self.emit(F_SEQ, br.test, 'g_win_test%d' % n, '(r1_rev r2_rev : bool) : bool',
+                      self.expr(br.test, oenv, 'orientation test', must_use=('r1_rev', 'r2_rev')))
+            self.emit(F_SEQ, br.body[0].value, 'g_win%d' % n, '(r1_start r1_end r2_start r2_end d1 d2 : Z) : Z * Z',
+                      self.expr(br.body[0].value, wenv, 'window', boolean=False),
+                      note='(inclusive window start, end)')
+        # the two read_to_consensus_dict calls: which option reaches which mate
+        rv = ret.value
+        if not (isinstance(rv, ast.Tuple) and len(rv.elts) == 2 and all(isinstance(e, ast.Call) and self.u(e.func) == 'read_to_consensus_dict'
+                                                                         for e in rv.elts)):
+            raise Untranslatable('get_consensus_dictionaries: does not return two read_to_consensus_dict(...) results')
+        opts = {'skip_first_n_cycles_R1': 'sf1', 'skip_last_n_cycles_R1': 'sl1', 'skip_first_n_cycles_R2': 'sf2', 'skip_last_n_cycles_R2': 'sl2'}
+        for n, (e, mate) in enumerate(zip(rv.elts, ('R1', 'R2')), 1):
+            if [self.u(a) for a in e.args] != [mate, 'start', 'end']:
+                raise Untranslatable('get_consensus_dictionaries: dictionary %d is not built from (%s, start, end)' % (n, mate))
+            kw = {k.arg: k.value for k in e.keywords}
+            if set(kw) != {'only_include_refbase', 'skip_last_n_cycles', 'skip_first_n_cycles', 'min_phred_score'} or len(kw) != len(e.keywords):
+                raise Untranslatable('get_consensus_dictionaries: keywords passed for %s are %s' % (mate, sorted(k.arg or '**' for k in e.keywords)))
+            for same in ('only_include_refbase', 'min_phred_score'):
+                if self.u(kw[same]) != same:
+                    raise Untranslatable('get_consensus_dictionaries: %s of %s is `%s`' % (same, mate, self.u(kw[same])))
+            for which in ('first', 'last'):
+                v = self.u(kw['skip_%s_n_cycles' % which])
+                if v not in opts:
+                    raise Untranslatable('get_consensus_dictionaries: skip_%s_n_cycles of %s is `%s`' % (which, mate, v))
+                self.emit(F_SEQ, kw['skip_%s_n_cycles' % which], 'g_r%d_skip_%s' % (n, which), '{A : Type} (sf1 sl1 sf2 sl2 : A) : A', opts[v],
+                          note='(which option read_to_consensus_dict receives as skip_%s_n_cycles for %s)' % (which, mate))
+                self.facts['r%d_skip_%s' % (n, which)] = v
+
+    def raises(self, st, exc):
+        return isinstance(st, ast.Raise) and st.exc is not None and (
+            (isinstance(st.exc, ast.Call) and self.u(st.exc.func) == exc) or self.u(st.exc) == exc)
+
+    def read_filter(self):
+        f = self.fn(F_SEQ, 'read_to_consensus_dict')
+        self.plain_args(f, self.RTC_ARGS, 'read_to_consensus_dict')
+        if [self.u(d) for d in f.args.defaults] != ['None'] * 6:
+            raise Untranslatable('read_to_consensus_dict: defaults are not all None')
+        body = self.nodoc(f)
+        if not (len(body) == 2 and isinstance(body[0], ast.If) and self.u(body[0].test) == 'read is None' and not body[0].orelse
+                and len(body[0].body) == 1 and isinstance(body[0].body[0], ast.Return)
+                and self.u(body[0].body[0].value) in ('dict()', '{}') and isinstance(body[1], ast.Return)
+                and isinstance(body[1].value, ast.DictComp)):
+            raise Untranslatable('read_to_consensus_dict: expected [if read is None: return dict(), return {dict comprehension}]')
+        dc = body[1].value
+        if len(dc.generators) != 1 or dc.generators[0].is_async:
+            raise Untranslatable('read_to_consensus_dict: nested comprehension')
+        g = dc.generators[0]
+        if not (self.u(g.target) == '(qpos, refpos, refbase)'
+                and self.u(g.iter) == 'read.get_aligned_pairs(matches_only=True, with_seq=True)'):
+            raise Untranslatable('read_to_consensus_dict: the comprehension does not run over (qpos, refpos, refbase) of '
+                                 'get_aligned_pairs(matches_only=True, with_seq=True)')
+        if self.u(dc.key) != '(read.reference_name, refpos)':
+            raise Untranslatable('read_to_consensus_dict: key is `%s`' % self.u(dc.key))
+        val = dc.value
+        if not (isinstance(val, ast.Tuple) and len(val.elts) >= 2 and self.u(val.elts[0]) == 'read.query_sequence[qpos]'
+                and self.u(val.elts[1]) == 'read.query_qualities[qpos]'):
+            raise Untranslatable('read_to_consensus_dict: value is not (query base, query quality, ...)')
+        if len(g.ifs) != 1:
+            raise Untranslatable('read_to_consensus_dict: expected one filter condition')
+        env = {'refpos': 'p', 'read.query_qualities[qpos]': 'q', 'qpos': 'qp', 'read.infer_query_length()': 'qlen',
+               'read.is_reverse': 'rev', 'refbase.upper()': 'ref_upper',
+               'start': 'start_', 'end': 'end_', 'min_phred_score': 'minq', 'skip_last_n_cycles': 'sl', 'skip_first_n_cycles': 'sf',
+               'only_include_refbase': 'rb'}
+        for py, has in (('start', 'has_start'), ('end', 'has_end'), ('min_phred_score', 'has_minq'), ('skip_last_n_cycles', 'has_sl'),
+                        ('skip_first_n_cycles', 'has_sf'), ('only_include_refbase', 'has_rb')):
+            env['%s is None' % py] = '(negb %s)' % has
+            env['%s is not None' % py] = has
+        self.emit(F_SEQ, g.ifs[0], 'g_keep',
+                  '(has_start has_end has_minq has_sl has_sf has_rb : bool) (start_ end_ minq sl sf rb : Z) (p q qp qlen ref_upper : Z) (rev : bool) : bool',
+                  self.expr(g.ifs[0], env, 'read filter',
+                            must_use=('has_start', 'has_end', 'has_minq', 'has_sl', 'has_sf', 'has_rb', 'start_', 'end_', 'minq', 'sl', 'sf',
+                                      'rb', 'p', 'q', 'qp', 'qlen', 'ref_upper', 'rev')),
+                  note='(the `if` of the dict comprehension; has_x: option x is not None; ref_upper: refbase.upper())')
+
+    # ---- Fragment.get_consensus
+    def fragment(self):
+        for prop, slot in (('R1', 0), ('R2', 1)):
+            p = self.fn(F_FRAG, 'Fragment.%s' % prop)
+            b = self.nodoc(p)
+            if not (len(b) == 1 and isinstance(b[0], ast.Return) and isinstance(b[0].value, ast.Subscript)
+                    and self.u(b[0].value.value) == 'self.reads' and self.const(b[0].value.slice, (int,)) and b[0].value.slice.value >= 0):
+                raise Untranslatable('Fragment.%s is not `return self.reads[<index>]`' % prop)
+            self.emit(F_FRAG, b[0].value, 'g_frag_%s_slot' % prop.lower(), ': nat', '%d%%nat' % b[0].value.slice.value)
+        f = self.fn(F_FRAG, 'Fragment.get_consensus')
+        self.plain_args(f, ['self', 'only_include_refbase', 'dove_safe'], 'Fragment.get_consensus', kwarg=True)
+        if [self.u(d) for d in f.args.defaults] != ['None', 'False']:
+            raise Untranslatable('Fragment.get_consensus: defaults are not (None, False)')
+        kwname = f.args.kwarg.arg
+        body = self.nodoc(f)
+        if not (len(body) == 2 and isinstance(body[0], ast.Assign) and isinstance(body[1], ast.Return)):
+            raise Untranslatable('Fragment.get_consensus: expected [d1, d2 = get_consensus_dictionaries(...), return {...}]')
+        asg, ret = body
+        t = asg.targets[0]
+        if not (len(asg.targets) == 1 and isinstance(t, ast.Tuple) and len(t.elts) == 2 and all(isinstance(e, ast.Name) for e in t.elts)):
+            raise Untranslatable('Fragment.get_consensus: the two dictionaries are not unpacked into two names')
+        d1, d2 = t.elts[0].id, t.elts[1].id
+        call = asg.value
+        if not (isinstance(call, ast.Call) and self.u(call.func) == 'get_consensus_dictionaries'
+                and [self.u(a) for a in call.args] == ['self.R1', 'self.R2']
+                and sorted((k.arg or '**', self.u(k.value)) for k in call.keywords) ==
+                sorted([('only_include_refbase', 'only_include_refbase'), ('dove_safe', 'dove_safe'), ('**', kwname)])):
+            raise Untranslatable('Fragment.get_consensus: get_consensus_dictionaries is not called with (self.R1, self.R2, '
+                                 'only_include_refbase=, dove_safe=, **%s)' % kwname)
+        dc = ret.value
+        if not (isinstance(dc, ast.DictComp) and len(dc.generators) == 1 and not dc.generators[0].ifs
+                and isinstance(dc.generators[0].target, ast.Name) and self.u(dc.key) == dc.generators[0].target.id):
+            raise Untranslatable('Fragment.get_consensus: result is not {pos: ... for pos in <positions>}')
+        k = dc.generators[0].target.id
+        it = self.u(dc.generators[0].iter)
+        forms = lambda a, b: ['set(%s.keys()).union(set(%s.keys()))' % (a, b), 'set(%s).union(set(%s))' % (a, b),
+                              'set(%s.keys()) | set(%s.keys())' % (a, b), '%s.keys() | %s.keys()' % (a, b), 'set(%s) | set(%s)' % (a, b),
+                              'set(%s.keys()).union(%s.keys())' % (a, b), 'set(%s).union(%s)' % (a, b)]
+        if it in forms(d1, d2):
+            order = 'd1 d2'
+        elif it in forms(d2, d1):
+            order = 'd2 d1'
+        else:
+            raise Untranslatable('Fragment.get_consensus: positions are not the union of the keys of both dictionaries: %s' % it[:120])
+        self.emit(F_FRAG, dc.generators[0].iter, 'g_frag_keys', '{D K : Type} (union : D -> D -> list K) (d1 d2 : D) : list K',
+                  'union %s' % order, note='(d1, d2: dictionaries of R1, R2)')
+        v = dc.value
+        if not (isinstance(v, ast.Call) and self.u(v.func) == 'pick_best_base_call' and not v.keywords and v.args):
+            raise Untranslatable('Fragment.get_consensus: the call at a position is not pick_best_base_call(...)')
+        args = []
+        for a in v.args:
+            ua = self.u(a)
+            if ua == '%s.get(%s)' % (d1, k):
+                args.append('c1')
+            elif ua == '%s.get(%s)' % (d2, k):
+                args.append('c2')
+            else:
+                raise Untranslatable('Fragment.get_consensus: pick_best_base_call argument `%s` is not a mate dictionary lookup' % ua[:80])
+        self.emit(F_FRAG, v, 'g_frag_pick', '{C R : Type} (pick : list (option C) -> R) (c1 c2 : option C) : R',
+                  'pick [%s]' % '; '.join(args), note='(c1, c2: the calls of R1, R2 at the position, None = not covered)')
+
+    # ---- Molecule.get_consensus
+    def molecule(self):
+        dv = self.fn(F_MOL, 'consensii_default_vector')
+        b = self.nodoc(dv)
+        if not (len(b) == 1 and isinstance(b[0], ast.Return) and isinstance(b[0].value, ast.Call) and self.u(b[0].value.func) == 'np.zeros'
+                and len(b[0].value.args) == 1 and self.const(b[0].value.args[0], (int,)) and not b[0].value.keywords):
+            raise Untranslatable('consensii_default_vector is not `return np.zeros(<n>)`')
+        self.emit(F_MOL, b[0].value, 'g_mol_vector_len', ': Z', str(b[0].value.args[0].value))
+        f = self.fn(F_MOL, 'Molecule.get_consensus')
+        self.plain_args(f, ['self', 'dove_safe', 'only_include_refbase', 'allow_N', 'with_probs_and_obs'], 'Molecule.get_consensus', kwarg=True)
+        if [self.u(d) for d in f.args.defaults] != ['False', 'None', 'False', 'False']:
+            raise Untranslatable('Molecule.get_consensus: defaults are not (False, None, False, False)')
+        kwname = f.args.kwarg.arg
+        body = self.nodoc(f)
+        if len(body) != 11:
+            raise Untranslatable('Molecule.get_consensus: expected 11 top level statements, found %d' % len(body))
+        allow, init, probs_init, loop, empty, loc0, loc1, vst, amax, proper, ret = body
+        if not (isinstance(allow, ast.If) and not allow.orelse and len(allow.body) == 1 and self.raises(allow.body[0], 'NotImplementedError')):
+            raise Untranslatable('Molecule.get_consensus: first statement is not `if <allow_N>: raise NotImplementedError()`')
+        self.emit(F_MOL, allow.test, 'g_mol_not_implemented', '(allow_N : bool) : bool', self.expr(allow.test, {'allow_N': 'allow_N'}, 'allow_N test'))
+        if self.u(init) != 'consensii = defaultdict(consensii_default_vector)':
+            raise Untranslatable('Molecule.get_consensus: vote table is not defaultdict(consensii_default_vector)')
+        if not (isinstance(probs_init, ast.If) and self.u(probs_init.test) == 'with_probs_and_obs' and not probs_init.orelse
+                and [self.u(s).split(' = ')[0] for s in probs_init.body] == ['phred_scores']):
+            raise Untranslatable('Molecule.get_consensus: third statement is not the phred_scores initialisation')
+        if not (isinstance(loop, ast.For) and self.u(loop.iter) == 'self' and isinstance(loop.target, ast.Name) and not loop.orelse
+                and len(loop.body) == 2):
+            raise Untranslatable('Molecule.get_consensus: expected `for fragment in self:` with [skip test, try]')
+        fr = loop.target.id
+        skip, tr = loop.body
+        if not (isinstance(skip, ast.If) and not skip.orelse and [self.u(s) for s in skip.body] == ['continue']):
+            raise Untranslatable('Molecule.get_consensus: first loop statement is not `if <skip test>: continue`')
+        self.emit(F_MOL, skip.test, 'g_mol_skip', '(dove_safe has_R1 has_R2 : bool) : bool',
+                  self.expr(skip.test, {'dove_safe': 'dove_safe', '%s.has_R1()' % fr: 'has_R1', '%s.has_R2()' % fr: 'has_R2'}, 'skip test'),
+                  note='(fragments for which this holds do not vote)')
+        if not (isinstance(tr, ast.Try) and not tr.orelse and not tr.finalbody and len(tr.handlers) == 1 and len(tr.body) == 1
+                and isinstance(tr.body[0], ast.For)):
+            raise Untranslatable('Molecule.get_consensus: second loop statement is not try: for ...: except ...')
+        h = tr.handlers[0]
+        if not (h.type is not None and self.u(h.type) == 'ValueError' and [self.u(s) for s in h.body] == ['pass']):
+            raise Untranslatable('Molecule.get_consensus: the handler is not `except ValueError: pass`')
+        inner = tr.body[0]
+        want_iter = '%s.get_consensus(dove_safe=dove_safe, only_include_refbase=only_include_refbase, **%s).items()' % (fr, kwname)
+        if not (self.u(inner.iter) == want_iter and isinstance(inner.target, ast.Tuple) and len(inner.target.elts) == 2
+                and isinstance(inner.target.elts[0], ast.Name) and isinstance(inner.target.elts[1], ast.Tuple)
+                and len(inner.target.elts[1].elts) == 2 and all(isinstance(e, ast.Name) for e in inner.target.elts[1].elts)
+                and not inner.orelse):
+            raise Untranslatable('Molecule.get_consensus: votes are not taken from `for pos, (base, q) in %s`' % want_iter)
+        pos, qb = inner.target.elts[0].id, inner.target.elts[1].elts[0].id
+        ib = [st for st in inner.body if not (isinstance(st, ast.If) and self.u(st.test) == 'with_probs_and_obs' and not st.orelse
+                                              and all(self.u(s).startswith('phred_scores[') for s in st.body))]
+        if not (len(ib) == 2 and isinstance(ib[0], ast.If) and not ib[0].orelse and [self.u(s) for s in ib[0].body] == ['continue']
+                and isinstance(ib[1], ast.AugAssign) and isinstance(ib[1].op, ast.Add)):
+            raise Untranslatable('Molecule.get_consensus: vote loop body is not [if <no vote>: continue, consensii[pos][column] += 1]')
+        self.emit(F_MOL, ib[0].test, 'g_mol_no_vote', '(b : Z) : bool', self.expr(ib[0].test, {qb: 'b'}, 'no-vote test', must_use=('b',)),
+                  note='(b: character code of the fragment call)')
+        tgt = ib[1].target
+        if not (isinstance(tgt, ast.Subscript) and self.u(tgt.value) == 'consensii[%s]' % pos and isinstance(tgt.slice, ast.Call)
+                and isinstance(tgt.slice.func, ast.Attribute) and tgt.slice.func.attr == 'index' and self.const(tgt.slice.func.value, (str,))
+                and [self.u(a) for a in tgt.slice.args] == [qb] and not tgt.slice.keywords):
+            raise Untranslatable('Molecule.get_consensus: the vote column is not \'<alphabet>\'.index(%s)' % qb)
+        alpha = tgt.slice.func.value
+        self.emit(F_MOL, alpha, 'g_mol_columns', ': list Z', '[%s]' % '; '.join(str(ord(ch)) for ch in alpha.value),
+                  note='(column of a base = its index in this string; a base outside it raises ValueError)')
+        self.emit(F_MOL, ib[1], 'g_mol_vote', ': Z', self.expr(ib[1].value, {}, 'vote increment', boolean=False))
+        # no votes at all
+        if not (isinstance(empty, ast.If) and self.u(empty.test) in ('len(consensii) == 0', 'not consensii') and not empty.orelse
+                and len(empty.body) == 1 and isinstance(empty.body[0], ast.If) and self.u(empty.body[0].test) == 'with_probs_and_obs'
+                and [self.u(s) for s in empty.body[0].body] == ['return (dict(), None, None)']
+                and [self.u(s) for s in empty.body[0].orelse] == ['return dict()']):
+            raise Untranslatable('Molecule.get_consensus: the empty-table exit is not `return dict()` / `return (dict(), None, None)`')
+        # rows of the vote matrix = sorted locations; argmax; uniqueness mask
+        if [self.u(s) for s in (loc0, loc1, vst, amax)] != [
+                'locations = np.empty(len(consensii), dtype=object)', 'locations[:] = sorted(list(consensii.keys()))',
+                'v = np.vstack([consensii[location] for location in locations])', 'majority_base_indices = np.argmax(v, axis=1)']:
+            raise Untranslatable('Molecule.get_consensus: vote matrix / argmax statements are not the modelled ones')
+        at_max = '(v == v[np.arange(v.shape[0]), majority_base_indices][:, np.newaxis]).sum(1)'
+        if not (isinstance(proper, ast.Assign) and self.u(proper.targets[0]) == 'proper' and isinstance(proper.value, ast.Compare)
+                and (self.u(proper.value.left) == at_max or any(self.u(c) == at_max for c in proper.value.comparators))):
+            raise Untranslatable('Molecule.get_consensus: `proper` does not compare the number of entries equal to the row maximum')
+        self.emit(F_MOL, proper.value, 'g_mol_proper', '(n_at_max : Z) : bool',
+                  self.expr(proper.value, {at_max: 'n_at_max'}, 'uniqueness mask', must_use=('n_at_max',)),
+                  note='(n_at_max: number of entries of the row equal to the entry at its argmax)')
+        if not (isinstance(ret, ast.If) and self.u(ret.test) == 'with_probs_and_obs' and len(ret.body) == 1 and len(ret.orelse) == 1
+                and isinstance(ret.body[0], ast.Return) and isinstance(ret.orelse[0], ast.Return)):
+            raise Untranslatable('Molecule.get_consensus: the last statement is not if with_probs_and_obs: return (...) else: return ...')
+        rp, rc = ret.body[0].value, ret.orelse[0].value
+        if not (isinstance(rp, ast.Tuple) and len(rp.elts) == 3 and [self.u(e) for e in rp.elts[1:]] == ['phred_scores', 'consensii']):
+            raise Untranslatable('Molecule.get_consensus: with_probs_and_obs does not return (consensus, phred_scores, consensii)')
+        alphas = []
+        for e in (rp.elts[0], rc):
+            m = re.fullmatch(r"dict\(zip\(locations\[proper\], \[('[^'\\]*')\[idx\] for idx in majority_base_indices\[proper\]\]\)\)", self.u(e))
+            if not m:
+                raise Untranslatable('Molecule.get_consensus: the consensus is not dict(zip(locations[proper], '
+                                     '[<alphabet>[idx] for idx in majority_base_indices[proper]])): %s' % self.u(e)[:140])
+            alphas.append(ast.literal_eval(m.group(1)))
+        if alphas[0] != alphas[1]:
+            raise Untranslatable('Molecule.get_consensus: the two return statements use different alphabets')
+        self.emit(F_MOL, rc, 'g_mol_letters', ': list Z', '[%s]' % '; '.join(str(ord(ch)) for ch in alphas[1]),
+                  note='(the reported base of a row = this string at the argmax; rows and indices both masked by `proper`)')
+
+
+def regen_consensus(repo=None):
+    """T: regenerate coq/Gen/GenConsensus.v from the source tree; returns (metadata, facts)"""
+    gen_path = os.path.join(fw.COQ, 'Gen', 'GenConsensus.v')
+    try:
+        g = _Gen(repo or fw.REPO)
+        g.pick_best(); g.dictionaries(); g.read_filter(); g.fragment(); g.molecule()
+    except Exception:
+        # fail closed: no stale translation may be left for the proofs to build against
+        for ext in ('.v', '.vo', '.vos', '.vok', '.glob'):
+            try:
+                os.remove(gen_path[:-2] + ext)
+            except OSError:
+                pass
+        raise
+    py2coq.write_gen(gen_path, '', g.chunks)
+    return g.meta, g.facts
 
 
 # ------------------------------------------------------------------------------------------ generators
@@ -266,6 +745,24 @@ def pick_cases(rng, tier):
 
 
 # ------------------------------------------------------------------------------------------ python oracle
+# which keyword reaches read_to_consensus_dict as skip_first/skip_last for each mate.  The statement says nothing about
+# the skip options; the oracle therefore follows what the installed translation (coq/Gen/GenConsensus.v: regenerated from
+# the source, or the pinned copy when the translator refused) says, like the model does.  /repo passes
+# skip_last_n_cycles_R2 for both skip arguments of R2 (skip_first_n_cycles_R2 is unused).
+FWD = {'r1_skip_first': 'skip_first_n_cycles_R1', 'r1_skip_last': 'skip_last_n_cycles_R1',
+       'r2_skip_first': 'skip_last_n_cycles_R2', 'r2_skip_last': 'skip_last_n_cycles_R2'}
+
+
+def load_forwarding():
+    names = {'sf1': 'skip_first_n_cycles_R1', 'sl1': 'skip_last_n_cycles_R1', 'sf2': 'skip_first_n_cycles_R2', 'sl2': 'skip_last_n_cycles_R2'}
+    try:
+        txt = open(os.path.join(fw.COQ, 'Gen', 'GenConsensus.v')).read()
+    except OSError:
+        return
+    for m in re.finditer(r'Definition g_(r[12]_skip_(?:first|last)) [^\n]*:=\s*(sf1|sl1|sf2|sl2)\.', txt):
+        FWD[m.group(1)] = names[m.group(2)]
+
+
 def spec_votes(ds, frags_minput, head=False, kw=None):
     """brute-force transcription of the theorem statement on the pysam-derived read tuples
     (refpos, base, quality, query position, reference base), for the options of THIS query:
@@ -273,10 +770,9 @@ def spec_votes(ds, frags_minput, head=False, kw=None):
     kw = kw or {}
     d1, d2 = kw.get('dove_R1_distance', 0), kw.get('dove_R2_distance', 0)
     minq, refb = kw.get('min_phred_score'), kw.get('only_include_refbase')
-    # (skip_first, skip_last) per mate as get_consensus_dictionaries passes them on: for R2 the code passes
-    # skip_last_n_cycles_R2 as skip_first as well (skip_first_n_cycles_R2 is unused) - the model does the same
-    skips = [(kw.get('skip_first_n_cycles_R1'), kw.get('skip_last_n_cycles_R1')),
-             (kw.get('skip_last_n_cycles_R2'), kw.get('skip_last_n_cycles_R2'))]
+    # (skip_first, skip_last) per mate as get_consensus_dictionaries passes them on (FWD above)
+    skips = [(kw.get(FWD['r1_skip_first']), kw.get(FWD['r1_skip_last'])),
+             (kw.get(FWD['r2_skip_first']), kw.get(FWD['r2_skip_last']))]
     votes, keys = {}, set()
     for slots in frags_minput:
         if len(slots) != 2:
@@ -365,14 +861,23 @@ class Prop(fw.PropBase):
     ID = 'C13'
     PROPS = 'Props/C13.v'
     TRUSTED = [
+        'translator tie: tools/c13.py regen_consensus (hand-written, fail closed) regenerates coq/Gen/GenConsensus.v from the current '
+        'source: the comparisons / constants / flag updates of pick_best_base_call, the orientation tests, window arithmetic and option '
+        'routing of get_consensus_dictionaries, the filter of read_to_consensus_dict, slots / key union / pick_best_base_call arguments '
+        'of Fragment.get_consensus, and allow_N test, skip test, no-vote test, column alphabet, increment, uniqueness mask and result '
+        'alphabet of Molecule.get_consensus. The control skeleton around them (loops, try/except ValueError, defaultdict, sorted '
+        'locations, vstack, which statement guards which) is matched structurally and hand-modelled in coq/Model/C13x.v',
         'modelled not verified: pysam AlignedSegment accessors (get_aligned_pairs(matches_only=True), reference_start/'
         'reference_end, is_reverse, has_tag(MD)); the model input per read is what pysam reports for the same read object',
-        'modelled not verified: numpy argmax/equality mask on float vectors (exact for counts < 2^53), python dict/set '
-        'semantics (model: insertion-ordered association list; iteration order of the key-set union is not modelled, '
-        'votes are shown to commute); the sort of the locations only fixes the iteration order of the returned dict',
-        'keyword options of get_consensus are modelled as the record opts (dove_safe, only_include_refbase, min_phred_score, '
-        'skip_first/last_n_cycles_R1/R2, dove_R1/R2_distance; allow_N False); the code passes skip_last_n_cycles_R2 also as '
-        'skip_first for R2 (skip_first_n_cycles_R2 is unused) - modelled as is; membership of fragments in the molecule is '
+        'modelled not verified: numpy argmax (first index of the row maximum) / equality mask on float vectors (exact for counts '
+        '< 2^53), str.index, str.upper, python dict/set semantics (model: insertion-ordered association list; iteration order of the '
+        'key-set union is not modelled, votes are shown to commute); the sort of the locations only fixes the iteration order of the '
+        'returned dict; Fragment.has_R1/has_R2',
+        'argument record of Molecule.get_consensus: dove_safe, only_include_refbase, min_phred_score, skip_first/last_n_cycles_R1/R2, '
+        'dove_R1/R2_distance (opts), allow_N, with_probs_and_obs (args); the phred_scores component of with_probs_and_obs is not '
+        'modelled; a keyword that get_consensus_dictionaries does not accept (TypeError) is outside the record; which skip option '
+        'reaches which mate is taken from the source as generated (/repo routes skip_last_n_cycles_R2 to both skip arguments of R2, '
+        'skip_first_n_cycles_R2 is unused: fixes/C13-D36.patch, outside the statement); membership of fragments in the molecule is '
         'taken as given (add_fragment verdict is an input)',
     ]
     ASSUMPTIONS = [
@@ -394,6 +899,11 @@ class Prop(fw.PropBase):
         # when D16 is recorded as a known finding (instead of being repaired) the HEAD model (mode 3) is the reference
         self.head = any(str(f.get('key', '')).startswith('D16') for f in fw.load_findings('C13'))
         self.mode = 3 if self.head else 0
+
+    # ---------------------------------------------------------------- T
+    def regen(self):
+        meta, self.facts = regen_consensus()
+        return meta
 
     # ---------------------------------------------------------------- inputs
     def refs(self):
@@ -507,6 +1017,7 @@ class Prop(fw.PropBase):
         return out
 
     def correspondence(self):
+        load_forwarding()
         refs, cases = self.cases()
         picks = pick_cases(self.rng, self.tier)
         hists = self.histories()
@@ -524,7 +1035,7 @@ class Prop(fw.PropBase):
             hist_n[n] = hist_n.get(n, 0) + 1
             for k in c['kinds']:
                 hist_kind[k] = hist_kind.get(k, 0) + 1
-            evals += len(c['orders']) + 1 + len(c['frags'])
+            evals += len(c['orders']) + 2 + len(c['frags'])
             for o in r['outs']:
                 if isinstance(o, dict):
                     errs[o['error'].split(':')[0]] = errs.get(o['error'].split(':')[0], 0) + 1
@@ -541,7 +1052,7 @@ class Prop(fw.PropBase):
             'evaluations': evals + len(picks),
             'distinct_nontrivial': len(nontrivial),
             'rule': 'one evaluation = one call of the real Molecule.get_consensus (each insertion order / duplication of each '
-                    'molecule, plus one with_probs_and_obs call for the vote table) or Fragment.get_consensus or '
+                    'molecule, plus one with_probs_and_obs call for consensus + vote table and one allow_N=True call) or Fragment.get_consensus or '
                     'pick_best_base_call, compared with the model. non-trivial molecule = at least one position where two '
                     'different bases received votes; distinct by hash of (dove_safe, per-read pysam triples)',
             'molecules': len(cases), 'fragments_per_molecule': {str(k): v for k, v in sorted(hist_n.items())},
@@ -616,6 +1127,28 @@ class Prop(fw.PropBase):
             got = code_of(rc[ci]['fragcons'][fi])
             if got != m:
                 dis.append({'what': 'Fragment.get_consensus', 'case': ci, 'fragment': fi, 'model': m, 'impl': got})
+        # the whole argument record (model mode 9): with_probs_and_obs=True must give the same dictionary plus the vote
+        # table, allow_N=True must raise NotImplementedError whatever the other arguments are
+        n_args = 0
+        pj = aj = []
+        if not self.head:
+            pj = [[[enc_opts(c['ds'], c.get('kw')), 0, 1], r['minput']] for c, r in zip(cases, rc)]
+            aj = [[[enc_opts(c['ds'], c.get('kw')), 1, self.rng.randint(0, 1)], r['minput']] for c, r in zip(cases, rc)]
+            mp9, ma9 = fw.run_model('C13', 9, pj), fw.run_model('C13', 9, aj)
+            for ci, (c, r, m1, m2) in enumerate(zip(cases, rc, mp9, ma9)):
+                if isinstance(r['table'], dict):
+                    got = code_of(r['table'])
+                else:
+                    got = [4, r.get('probs_cons'), r['table']]
+                m1 = [m1[0]] + [sorted(x) for x in m1[1:]] if m1[0] == 4 else m1
+                if got != m1:
+                    dis.append({'what': 'get_consensus(with_probs_and_obs=True): (consensus, vote table)', 'case': ci,
+                                'order': c['orders'][0], 'model': m1, 'impl': got})
+                got = code_of(r.get('allow_n'))
+                if got != m2:
+                    dis.append({'what': 'get_consensus(allow_N=True)', 'case': ci, 'order': c['orders'][0], 'model': m2, 'impl': got})
+                n_args += 2
+        self.cov['argument_record'] = {'with_probs_and_obs_calls_compared': n_args // 2, 'allow_N_calls_compared': n_args // 2}
         # histories through one Molecule object
         rh = res['histories']
         bad_h = [r for r in rh if 'error' in r]
@@ -663,7 +1196,7 @@ class Prop(fw.PropBase):
         for p, m, g in zip(picks, mp, res['picks']):
             if m != g:
                 dis.append({'what': 'pick_best_base_call', 'input': p, 'model': m, 'impl': g})
-        self.cov['traces_validated_against_impl'] = len(jobs) + len(spec_jobs) + len(ident) + len(fjobs) + len(picks) + n_get
+        self.cov['traces_validated_against_impl'] = len(jobs) + len(spec_jobs) + len(ident) + len(fjobs) + len(picks) + n_get + n_args
         self.cov['precondition_hit_rate'] = round(sum(pre) / max(1, len(pre)), 4)
         self.cov['specb_evaluated_on_impl_outputs'] = len(spec_jobs)
         self.cov['python_majority_oracle_evaluated_on_impl_outputs'] = n_py
@@ -675,10 +1208,23 @@ class Prop(fw.PropBase):
         # vm_compute cross-check of the extracted binary (small inputs first: vm_compute on Z lists is slow to parse)
         order = sorted(range(len(jobs)), key=lambda i: (len(json.dumps(jobs[i])) > 1500, self.rng.random()))[:100]
         raw = fw.run_model('C13', self.mode, [jobs[i] for i in order])
-        ok, nm, log = fw.vm_crosscheck('C13', self.mode, [(jobs[i], raw[n]) for n, i in enumerate(order)])
+        ok, nm, log = fw.vm_crosscheck('C13', self.mode, [(jobs[i], raw[n]) for n, i in enumerate(order)],
+                                         run_name='run_C13x', require='Model.C13x')
         self.cov['vm_compute_crosscheck'] = {'cases': len(order), 'mismatches': nm}
         if not ok:
             raise fw.Broken('extraction', 'vm_compute and extracted model disagree: ' + log[-800:])
+        if not self.head and not getattr(self, '_vm9_done', False):
+            # the argument-record entry point (mode 9) as well (once per run: extra fallback passes skip it)
+            self._vm9_done = True
+            both = pj + aj
+            order9 = sorted(range(len(both)), key=lambda i: (len(json.dumps(both[i])) > 1500, self.rng.random()))[:40]
+            raw9 = fw.run_model('C13', 9, [both[i] for i in order9])
+            ok, nm9, log = fw.vm_crosscheck('C13', 9, [(both[i], raw9[n]) for n, i in enumerate(order9)],
+                                            run_name='run_C13x', require='Model.C13x')
+            self._vm9 = {'argument_record_cases': len(order9), 'argument_record_mismatches': nm9}
+            if not ok:
+                raise fw.Broken('extraction', 'vm_compute and extracted model disagree (argument record): ' + log[-800:])
+        self.cov['vm_compute_crosscheck'].update(getattr(self, '_vm9', {}))
         if dis:
             self.dis = dis
             raise fw.Broken('correspondence', 'model and implementation disagree on %d evaluations; first: %s'
@@ -712,6 +1258,9 @@ class Prop(fw.PropBase):
                 if code_of(r['outs'][0]) == [0, exp]:
                     kind = 'order-or-duplication-dependence'
             out.append((kind, o, g, exp))
+        pc = r.get('probs_cons')
+        if pc is not None and pc != exp and not out:
+            out.append(('with_probs_and_obs-consensus-differs', case['orders'][0], [0, pc], exp))
         return out
 
     def d16_present(self):
@@ -722,6 +1271,7 @@ class Prop(fw.PropBase):
         return self._d16
 
     def search(self):
+        load_forwarding()
         res = getattr(self, 'res_', None)
         if res is None:
             self.refs_, self.cases_ = self.cases()
@@ -743,7 +1293,8 @@ class Prop(fw.PropBase):
                 'key': kind if kind.startswith('D16') else 'majority:' + kind,
                 'what': 'Molecule.get_consensus(dove_safe=%s) on %d fragment(s) in insertion order %r returns %r; the strict '
                         'majority of the fragment calls is %r (entries are [contig, refpos, base code])'
-                        % ('%s, **%r' % (c2['ds'], c2.get('kw') or {}), len(c2['frags']), o2, g, exp),
+                        % ('%s, **%r%s' % (c2['ds'], c2.get('kw') or {}, ', with_probs_and_obs=True' if kind.startswith('with_probs') else ''),
+                           len(c2['frags']), o2, g, exp),
                 'input': {'dove_safe': c2['ds'], 'kwargs': c2.get('kw') or {}, 'fragments': c2['frags'], 'order': o2, 'refs_seed': 1234},
                 'impl': g, 'expected': exp})
         # histories: stale / route dependent answers
